@@ -359,3 +359,15 @@ Definition np_diff (c : list Qc) : list Qc := zip_with Qcminus (tl c) (removelas
 Definition sl_range (i j : nat) (l : list Qc) : list Qc := firstn (length l - j - i) (skipn i l).
 
 Definition qabs (x : Qc) : Qc := if qleb 0 x then x else - x.
+
+(* ---- integer arrays (indices) ---- *)
+(* np.arange(lo, hi) for Python ints *)
+Definition np_arange_nat (lo hi : nat) : list nat := seq lo (hi - lo).
+(* np.stack((x, y), axis=1): rows (x[i], y[i]) *)
+Definition np_stack2 (x y : list nat) : list (nat * nat) := combine x y.
+(* arr[idx] for an N x 2 integer index array *)
+Definition np_take2 (arr : list nat) (idx : list (nat * nat)) : list (nat * nat) :=
+  map (fun se => (nth (fst se) arr 0%nat, nth (snd se) arr 0%nat)) idx.
+(* np.where(x != y)[0] for equally long 1-D integer arrays *)
+Definition np_where_ne (x y : list nat) : list nat :=
+  filter (fun i => negb (Nat.eqb (nth i x 0%nat) (nth i y 0%nat))) (seq 0 (Nat.min (length x) (length y))).
